@@ -20,7 +20,8 @@ Request line:  `id enc <op> key=value …`
     cmp_tsk      as cmp_gglwe without `pt`: compressed tensor key (the model derives the tensor secret from `sk`)
     cmp_brk      bits n b kxe size rank dnum sk=<cols> sklwe=<ints> top gseeds=<4 words;…> sub=<words;…> seeds child es:
                  compressed blind-rotation key, all GGSWs; answer as cmp_ggsw over all GGSWs in order
-    lwe_dec      b nl body=<ints> xa=<raw words>: `decompress_lwe` (with its layout assertion) of (body, Source::new(seed) words)
+    lwe_dec      b nl [resb= ressize=] body=<ints> xa=<raw words>: `decompress_lwe` (with its base2k/size assertions; receiver radix / limbs
+                 default to the object's) of (body, Source::new(seed) words)
     bundle_order layout=<cbt|bdd> ksg=<0|1> gal=<Galois elements, any order> atkw atke brkw brke tskw tske ksgw ksge kslw ksle
                  (`…w` mask words, `…e` error polynomials one sub-key of that kind consumes): answer
                  `<name:first mask word:mask words:first error polynomial:error polynomials;…>` in encryption order
@@ -176,7 +177,10 @@ def handle (ts : List String) : String :=
       | none => "panic"
       | some cells => showCells b n rank ((rank + 1) * dnum) expand cells
     | "lwe_dec" =>
-      match Core.decompressLweRust b (kvNat ts "nl") (kvInts ts "body") (natsOf ts "xa") with
+      let body := kvInts ts "body"
+      let resB := if (kv ts "resb").isSome then kvNat ts "resb" else b
+      let resSize := if (kv ts "ressize").isSome then kvNat ts "ressize" else body.length
+      match Core.decompressLweRust resB resSize b (kvNat ts "nl") body (natsOf ts "xa") with
       | none => "panic"
       | some c => showCol c
     | "bundle_order" =>
